@@ -21,34 +21,60 @@ Scope.  Exhaustive:
     also under all 24 relabellings (quick: under the three adjacent transpositions, which generate S4 - on a complete
     space closed under relabelling that implies all 24) and 2 (quick) / 10 (thorough) insertion orders; the same 2048 with one (quick) / every
     (thorough: 16) subset of the four singleton hyperedges added; all hypergraphs on nodes 0..4 with hyperedges of
-    size 2..3 and at most 4 (quick) / 7 (thorough) hyperedges.
+    size 2..3 and at most 4 (quick) / 7 (thorough) hyperedges, and those with at most 4 (quick) / 5 (thorough) once more
+    with one non-empty subset of the five singleton hyperedges added (which of the 31: a function of the hypergraph and
+    the seed).
   * undirected, order 4: all hypergraphs on nodes 0..3 with at most 3 hyperedges (quick) / all 2048 (thorough);
     thorough also all hypergraphs on nodes 0..4 with hyperedges of size 2..4 and at most 3 hyperedges.  These spaces are
     closed under relabelling and the oracle is label-invariant by construction, so census equality on all of them
     subsumes relabelling invariance for N = 4 (N = 5 within the cap); explicit all-permutation runs for order 4 are done
     on N = 5 random hypergraphs only (one call costs ~0.45 s).
+  * undirected, order 4, hyperedges of size ONE next to the others (sizes 1..6 are inside the quantifier; the oracle
+    does not use them - "taking the hyperedges of size at least two" - and the clause that fails is the census clause):
+    every hypergraph of the 4-node space of the previous item once more with one non-empty subset of the four singleton
+    hyperedges added (which of the 15 rotates with the position in the enumeration and the seed, so every subset
+    occurs next to every kind of size-2/3/4 hyperedge).  Because a call costs ~0.45 s whatever the input, FOUR of these
+    are evaluated in one call as a disjoint union (member i on nodes 4i..4i+3; 58 unions in quick, 512 in thorough); the
+    oracle is the plain census of the 16-node union (all 1820 node subsets), so nothing is assumed about unions - but
+    opposite errors in two members of a union could cancel.  Thorough therefore also runs, each on its own, those
+    with at most 3 hyperedges of size >= 2 (one singleton subset) and those with at most 2 with EVERY subset of the
+    singleton hyperedges.
   * directed, order 3: all 4096 directed hypergraphs on nodes 0..2 (12 possible hyperedges with disjoint non-empty
     source/target) under all 6 relabellings; orders 3 and 4: all directed hypergraphs on nodes 0..3 (50 possible
     hyperedges) with at most 2 hyperedges under all 24 relabellings; thorough adds all those with exactly 3
     hyperedges under the three adjacent transpositions (they generate S4 and the space is closed under relabelling, so
-    invariance under them on the whole space implies invariance under all 24).
+    invariance under them on the whole space implies invariance under all 24).  Orders 3 and 4: the 4-node space with at
+    most 2 hyperedges once more with a non-empty set of ONE-NODE hyperedges added ({v} -> {} or {} -> {v}; source and
+    target are disjoint, so they are inside the quantifier; which of the 255 sets: a function of the hypergraph and the
+    seed), under the three adjacent transpositions (quick) / all 24 relabellings (thorough).  The statement does not say what a one-node directed hyperedge contributes, so
+    only the clauses (a)-(c) are evaluated on these inputs as on all directed ones.
 Sampled (seeded): undirected and directed hypergraphs on 3..7 nodes, labels 0..N-1 / scattered / negative / huge
 integers, hyperedge sizes 1..6, isolated nodes, weighted and unweighted, dyadic-dense ones for the ESU pass; every
 permutation of the labels when N <= 5, else 30 random ones (order 4: 10 in quick); 10 insertion orders (hyperedge order,
 node order inside a hyperedge, constructor vs add_edge, isolated nodes first / last); hyperedges larger than the order
-added to an existing hypergraph.  Budgets are counts, quick / thorough:
-  order 3 and directed (a call costs < 1 ms): 300 / 4000 undirected and 200 / 3000 directed random hypergraphs, each
-    with ALL of the variants above (directed ones for both orders);
+added to an existing hypergraph.  In the general generator a hyperedge has size one with probability ~1/21 only, so
+a second generator ("size-one") makes hypergraphs with overlapping hyperedges of size 2..5 (mostly 2 and 3) and puts a
+hyperedge {v} on about half of the nodes v of the size-2/3 hyperedges (at least one; sometimes one more on a node that
+lies in no other hyperedge); its directed counterpart adds 1..3 one-node hyperedges ({v} -> {} / {} -> {v}) to a random
+directed hypergraph.  Budgets are counts, quick / thorough:
+  order 3 and directed (a call costs < 1 ms): 300 / 4000 undirected, 100 / 1000 undirected "size-one", 200 / 3000
+    directed and 60 / 600 directed with one-node hyperedges, each with ALL of the variants above (directed ones for both
+    orders);
   order 4 undirected (a call costs ~0.45 s because the implementation rebuilds its 171-class table three times per
-    call; ~480 / ~8500 calls in total): census of 40 / 1000 random hypergraphs; all 119 non-identity permutations of
-    1 / 6 random 5-node hypergraphs and 10 / 30 random permutations of 3 / 30 on 6..7 nodes; 10 insertion orders of
-    3 / 80; larger hyperedges added to 6 / 100.
-A few degenerate inputs (empty, isolated nodes only, singleton hyperedges only, fewer nodes than the order) are run for
-both functions and both orders.
+    call; ~750 / ~12000 calls in total): census of 40 / 1000 random hypergraphs and of 12 / 150 "size-one" ones; all 119
+    non-identity permutations of 1 / 6 random 5-node hypergraphs and 10 / 30 random permutations of 3 / 30 on 6..7
+    nodes; 10 insertion orders of 3 / 80; larger hyperedges added to 6 / 100; 5 relabellings and 5 insertion orders of
+    2 / 20 "size-one" ones.
+A few degenerate inputs (empty, isolated nodes only, singleton hyperedges only, fewer nodes than the order, singleton
+hyperedges on the nodes of a size-3 + size-2 / star / size-4 pattern, one-node directed hyperedges only and next to a
+cycle / a 3-node hyperedge) are run for both functions and both orders.
 
-Limits.  Bounded evidence only: N <= 7 nodes.  Non-integer labels are outside the quantifier and not tried.  The
+Limits.  Bounded evidence only: N <= 7 nodes (the disjoint unions of four 4-node hypergraphs have 16).  Non-integer labels are outside the quantifier and not tried.  The
 configuration-model part of the output (runs_config_model > 0) is not C11.  The statement gives no definition of WHICH
-directed node subsets are counted, so directed counts are only checked for invariance, not for value.
+directed node subsets are counted, so directed counts are only checked for invariance, not for value.  Directed
+hyperedges with an empty source or target on TWO OR MORE nodes are not generated: the statement is silent about them
+(on /repo they make the census report patterns on fewer than `order` nodes, e.g. the empty pattern () with count 1 for
+the single hyperedge {1,2,3} -> {} at order 3; whether such a hyperedge is admissible at all is not C11's business).
 An exception raised by the function under test on an admissible input is reported as a failed clause
 "does not raise on admissible input"; an exception while *building* the input hypergraph is another property's
 business and the case is skipped (counter `skipped_build_raised`).
@@ -642,6 +668,28 @@ def _random_u(rng, nmin=3, nmax=7):
     return dict(edges=edges, isolated=isolated, weighted=rng.random() < 0.25)
 
 
+def _random_u_single(rng, nmin=4, nmax=7):
+    """Hyperedges of size ONE next to the others: a random hypergraph with overlapping hyperedges of size 2..5 (mostly 2
+    and 3, at least one of size 2 or 3), plus a hyperedge {v} on every node v of a size-2/3 hyperedge with probability
+    1/2 (at least one such), sometimes also a {w} on a node w that lies in no other hyperedge.  At most 7 nodes."""
+    n = rng.randint(nmin, nmax)
+    labels = _labels(rng, n)
+    weights = rng.choice([[(2, 6), (3, 6), (4, 2), (5, 1)], [(2, 3), (3, 8), (4, 1)], [(2, 8), (3, 2), (4, 2)]])
+    edges = set()
+    for _ in range(rng.randint(2, n + 3)):
+        edges.add(frozenset(rng.sample(labels, _pick_size(rng, n, weights))))
+    if not any(len(e) in (2, 3) for e in edges):
+        edges.add(frozenset(rng.sample(labels, rng.randint(2, 3))))
+    hosts = sorted(set(v for e in edges if len(e) in (2, 3) for v in e))
+    singles = [v for v in hosts if rng.random() < 0.5] or [rng.choice(hosts)]
+    used = set(v for e in edges for v in e)
+    if len(used) < 7 and rng.random() < 0.2:
+        singles.append(rng.choice([v for v in range(-3, 45) if v not in used]))
+    edges = [sorted(e) for e in sorted(edges, key=lambda e: (len(e), sorted(e)))] + [[v] for v in singles]
+    rng.shuffle(edges)
+    return dict(edges=edges, isolated=[], weighted=rng.random() < 0.25)
+
+
 def _larger_u(rng, order, nodes, howmany, present=()):
     """hyperedges of size > order (<= 6), not yet present, over the existing nodes plus up to two new ones"""
     pool = sorted(nodes)
@@ -672,6 +720,16 @@ def _random_d(rng, nmin=3, nmax=7):
     if rng.random() < 0.2 and len(used) < 7:
         isolated = [rng.choice([v for v in range(-3, 45) if v not in used])]
     return dict(edges=edges, isolated=isolated)
+
+
+def _one_node_d(rng, nodes, howmany):
+    """directed hyperedges on ONE node (source {v} and empty target, or the reverse): source and target are disjoint, so
+    they are inside the quantifier; only the invariance / canonical-representative clauses are evaluated on them"""
+    out = set()
+    for _ in range(howmany):
+        v = rng.choice(sorted(nodes))
+        out.add(((v,), ()) if rng.random() < 0.5 else ((), (v,)))
+    return [[list(s), list(t)] for s, t in sorted(out)]
 
 
 def _larger_d(rng, order, nodes, howmany, present=()):
@@ -747,7 +805,11 @@ def _work(task):
         for idx in task["subsets"]:
             edges = [possible[i] for i in idx]
             rng = random.Random(f"C11:{task['seed']}:xu:{order}:{n}:{sorted(idx)}")
-            for singles in task["singletons"]:
+            singletons = task["singletons"]
+            if singletons == "rotate":  # one non-empty subset of the n hyperedges of size one, a function of idx and the seed
+                sng = 1 + (7 * sum(idx) + len(idx) + task["seed"]) % ((1 << n) - 1)
+                singletons = [[v for v in range(n) if sng >> v & 1]]
+            for singles in singletons:
                 t = dict(kind="u", order=order, edges=edges + [[v] for v in singles], isolated=[], weighted=False,
                          maps=maps if not singles else [], extras=[], census=True,
                          shuffles=_shuffles_u(rng, edges, task["n_shuffles"]) if not singles and edges else [])
@@ -759,6 +821,10 @@ def _work(task):
         for idx in task["subsets"]:
             edges = [possible[i] for i in idx]
             rng = random.Random(f"C11:{task['seed']}:xd:{order}:{n}:{sorted(idx)}")
+            if task.get("one_node"):  # plus one non-empty subset of the 2n one-node hyperedges ({v} -> {} and {} -> {v})
+                dg = 1 + (7 * sum(idx) + len(idx) + task["seed"]) % ((1 << 2 * n) - 1)
+                edges = edges + [[[v], []] if b < n else [[], [v]] for b in range(2 * n) if dg >> b & 1
+                                 for v in [b % n]]
             t = dict(kind="d", order=order, edges=edges, isolated=[], maps=maps, extras=[],
                      shuffles=_shuffles_d(rng, edges, task["n_shuffles"]) if edges else [])
             _merge(out, eval_d(t))
@@ -774,6 +840,7 @@ def _plan(ctx):
     q = ctx.quick
     seed = ctx.seed
     rng = random.Random(f"C11:{seed}:plan")
+    rng1 = random.Random(f"C11:{seed}:plan:size-one")  # own stream for the inputs with hyperedges on one node
     heavy, light = [], []
 
     # ---- undirected order 4 (one call ~0.45 s): everything is a heavy task with at most ~16 calls
@@ -785,9 +852,42 @@ def _plan(ctx):
         p5 = _possible_u(5, 2, 4)
         for idx in _index_sets(len(p5), 3):
             heavy.append(dict(kind="u", order=4, edges=[p5[i] for i in idx], isolated=[], weighted=False, census=True))
+    # hyperedges of size ONE on the nodes of subsets that also carry larger hyperedges ("taking the hyperedges of size at
+    # least two contained in it"): every hypergraph of the 4-node space above with one non-empty subset of the four
+    # singleton hyperedges (which of the 15 rotates with the position and the seed).  A call costs ~0.45 s whatever the
+    # input, so four of them are put into ONE hypergraph as a disjoint union (member i on nodes 4i..4i+3; a 4-subset that
+    # meets two members is never connected, and the oracle visits all C(16,4) subsets of the union anyway) ...
+    def with_singles(idx, sng):
+        return [p4[i] for i in idx] + [[v] for v in range(4) if sng >> v & 1]
+
+    def union(members):
+        return [[v + 4 * i for v in e] for i, es in enumerate(members) for e in es]
+
+    done = set()
+    members = []
+    for j, idx in enumerate(sub4):
+        sng = 1 + (j + seed) % 15
+        members.append(with_singles(idx, sng))
+        if not q and len(idx) <= 3:  # thorough: those with at most 3 hyperedges of size >= 2 also on their own
+            done.add((idx, sng))
+            heavy.append(dict(kind="u", order=4, edges=members[-1], isolated=[], weighted=False, census=True))
+    for ch in _chunks(members, 4):
+        heavy.append(dict(kind="u", order=4, edges=union(ch), isolated=[], weighted=False, census=True))
+    if not q:  # ... thorough: at most 2 hyperedges of size >= 2 with EVERY subset of the singleton hyperedges, on their own
+        for idx in _index_sets(len(p4), 2):
+            for sng in range(1, 16):
+                if (idx, sng) not in done:
+                    heavy.append(dict(kind="u", order=4, edges=with_singles(idx, sng), isolated=[], weighted=False, census=True))
     for _ in range(40 if q else 1000):  # random census (sizes 1..6, isolated, weighted, odd labels)
         g = _random_u(rng, 4, 7)
         heavy.append(dict(kind="u", order=4, census=True, **g))
+    for _ in range(12 if q else 150):  # random census, singleton hyperedges on nodes of size-2/3 hyperedges
+        heavy.append(dict(kind="u", order=4, census=True, **_random_u_single(rng1, 4, 7)))
+    for _ in range(2 if q else 20):  # the same under 5 relabellings and 5 insertion orders
+        g = _random_u_single(rng1, 4, 7)
+        nodes = sorted(set(v for e in g["edges"] for v in e))
+        heavy.append(dict(kind="u", order=4, census=True, maps=_random_maps(rng1, nodes, 5),
+                          shuffles=_shuffles_u(rng1, g["edges"], 5), **g))
     n5, nbig, nperm = (1, 3, 10) if q else (6, 30, 30)
     made5 = madebig = 0
     while made5 < n5 or madebig < nbig:  # relabelling
@@ -838,6 +938,16 @@ def _plan(ctx):
     for ch in _chunks(_index_sets(len(p53), 4 if q else 7), 1024):
         light.append(dict(kind="xu", order=3, n=5, possible=p53, subsets=ch, seed=seed, maps="none", n_shuffles=0,
                           singletons=[[]]))
+    for ch in _chunks(_index_sets(len(p53), 4 if q else 5), 1024):  # the same with one non-empty subset of the 5 singleton hyperedges
+        light.append(dict(kind="xu", order=3, n=5, possible=p53, subsets=ch, seed=seed, maps="none", n_shuffles=0,
+                          singletons="rotate"))
+    for _ in range(100 if q else 1000):  # singleton hyperedges on nodes of size-2/3 hyperedges, all variants
+        g = _random_u_single(rng1, 3, 7)
+        nodes = set(v for e in g["edges"] for v in e)
+        base = [e for e in g["edges"] if len(e) <= 3]
+        light.append(dict(kind="u", order=3, census=True, maps=_maps_for(rng1, nodes, 30),
+                          shuffles=_shuffles_u(rng1, g["edges"], 10),
+                          extras=[_larger_u(rng1, 3, set(v for e in base for v in e), rng1.randint(1, 3), g["edges"])], **g))
     for _ in range(300 if q else 4000):
         g = _random_u(rng, 3, 7)
         nodes = set(v for e in g["edges"] for v in e) | set(g["isolated"])
@@ -854,11 +964,17 @@ def _plan(ctx):
     # ---- degenerate inputs (registered as trivial cases: their census is identically zero)
     for order in (3, 4):
         for g in (dict(edges=[], isolated=[]), dict(edges=[], isolated=[4, 2, 9, 7, 1]), dict(edges=[[3], [5], [8]], isolated=[]),
-                  dict(edges=[[1, 2]], isolated=[]), dict(edges=[[6, 2], [2, 4], [2, 4, 6]], isolated=[])):
+                  dict(edges=[[1, 2]], isolated=[]), dict(edges=[[6, 2], [2, 4], [2, 4, 6]], isolated=[]),
+                  dict(edges=[[6, 2], [2], [2, 4], [6], [2, 4, 6]], isolated=[]),
+                  dict(edges=[[3], [1, 2, 3], [3, 4], [4]], isolated=[]), dict(edges=[[5], [1, 5], [5, 7], [5, 9], [9]], isolated=[]),
+                  dict(edges=[[8], [2, 4, 6, 8], [2]], isolated=[]), dict(edges=[[1, 2, 3], [4]], isolated=[])):
             light.append(dict(kind="u", order=order, census=True, weighted=False, **g))
         for g in (dict(edges=[], isolated=[]), dict(edges=[], isolated=[4, 2, 9, 7, 1]), dict(edges=[[[1], [2]]], isolated=[5, 6]),
-                  dict(edges=[[[1], [2]], [[2], [3]], [[3], [1]]], isolated=[])):
-            light.append(dict(kind="d", order=order, **g))
+                  dict(edges=[[[1], [2]], [[2], [3]], [[3], [1]]], isolated=[]),
+                  dict(edges=[[[1], []], [[], [2]], [[], [1]]], isolated=[3]),
+                  dict(edges=[[[1], [2]], [[2], []], [[2], [3]], [[], [3]], [[3], [1]]], isolated=[]),
+                  dict(edges=[[[4], []], [[1, 2], [3]], [[3], [4]], [[], [1]]], isolated=[])):
+            light.append(dict(kind="d", order=order, maps=_all_maps(sorted(set(v for s, t in g["edges"] for v in s + t) | set(g["isolated"]))), **g))
 
     # ---- directed
     pd3 = _possible_d(3)
@@ -869,6 +985,9 @@ def _plan(ctx):
         for ch in _chunks(_index_sets(len(pd4), 2), 64):
             light.append(dict(kind="xd", order=order, n=4, possible=pd4, subsets=ch, seed=seed, n_shuffles=1 if q else 2,
                               all_maps=True))
+        for ch in _chunks(_index_sets(len(pd4), 2), 64):  # the same plus a non-empty set of one-node hyperedges
+            light.append(dict(kind="xd", order=order, n=4, possible=pd4, subsets=ch, seed=seed, n_shuffles=1 if q else 2,
+                              all_maps=not q, one_node=True))
         if not q:  # exactly 3 hyperedges: the three adjacent transpositions (generators) instead of all 24 permutations
             for ch in _chunks(combinations(range(len(pd4)), 3), 256):
                 light.append(dict(kind="xd", order=order, n=4, possible=pd4, subsets=ch, seed=seed, n_shuffles=2,
@@ -884,6 +1003,15 @@ def _plan(ctx):
                               extras=[_larger_d(rng, order, nodes, rng.randint(1, 3), g["edges"])], **g))
             if big:
                 light.append(dict(kind="d", order=order, edges=keep, isolated=g["isolated"], extras=[big]))
+    for _ in range(60 if q else 600):  # one-node hyperedges ({v} -> {} / {} -> {v}) next to the others
+        g = _random_d(rng1, 3, 7)
+        nodes = set(v for s, t in g["edges"] for v in s + t) | set(g["isolated"])
+        g["edges"] = g["edges"] + _one_node_d(rng1, nodes - set(g["isolated"]), rng1.randint(1, 3))
+        rng1.shuffle(g["edges"])
+        for order in (3, 4):
+            light.append(dict(kind="d", order=order, maps=_maps_for(rng1, nodes, 30),
+                              shuffles=_shuffles_d(rng1, g["edges"], 10),
+                              extras=[_larger_d(rng1, order, nodes, rng1.randint(1, 3), g["edges"])], **g))
     # longest tasks first (stable), so that the pool drains evenly; the merge order is the task order, hence deterministic
     heavy.sort(key=lambda t: -(1 + len(t.get('maps', [])) + len(t.get('shuffles', [])) + len(t.get('extras', []))))
     return heavy, light
@@ -908,12 +1036,14 @@ def run(ctx):
 
     ctx.rule("undirected: exhaustive over subsets of the possible hyperedges on 4 nodes (order 3: all 2048, x all 24 "
              "relabellings (quick: x the 3 adjacent transpositions generating S4), x insertion orders, x singleton hyperedges; order 4: all 2048 in thorough, <= 3 hyperedges in "
-             "quick) and on 5 nodes with a cap on the number of hyperedges; then seeded random hypergraphs on 3..7 nodes, "
+             "quick; each once more with a non-empty subset of the 4 singleton hyperedges, four at a time as a disjoint union on 16 nodes) and on 5 nodes with a cap on the number of hyperedges (order 3: also with singleton hyperedges); then seeded random hypergraphs on 3..7 nodes, "
              "hyperedge sizes 1..6, labels 0..N-1 / scattered / negative / huge, isolated nodes, weighted or not, each "
              "relabelled by every permutation (N <= 5) or 30 random ones, re-inserted in 10 orders, and extended by "
-             "hyperedges larger than the order")
+             "hyperedges larger than the order; a second random family puts hyperedges of size one on the nodes of "
+             "hyperedges of size 2/3 (both orders)")
     ctx.rule("directed: all directed hypergraphs on 3 nodes, all on 4 nodes with <= 2 hyperedges, each under every "
-             "relabelling (thorough: also all with 3 hyperedges under the adjacent transpositions, which generate S4); seeded random ones on 3..7 nodes with 2..6 nodes per hyperedge")
+             "relabelling (thorough: also all with 3 hyperedges under the adjacent transpositions, which generate S4); seeded random ones on 3..7 nodes with 2..6 nodes per hyperedge; the 4-node space and a random "
+             "family also with one-node hyperedges ({v} -> {} / {} -> {v}) added")
     ctx.rule("a case is one call of the function under test; it is non-trivial when the census of its base hypergraph is "
              "not identically zero (undirected: by the brute-force oracle; directed: by the observed census)")
     ctx.assume("the oracle's canonical form (minimum over all k! relabellings of the sorted tuple of sorted hyperedges, "
@@ -954,7 +1084,9 @@ def run(ctx):
     ctx.exhaustive_parts.append("compute_motifs order 3: all hypergraphs on 5 nodes with hyperedges of size 2..3 and at "
                                 "most %d hyperedges" % (4 if ctx.quick else 7))
     ctx.exhaustive_parts.append("compute_motifs order 4: " + ("all hypergraphs on 4 nodes with at most 3 hyperedges"
-                                if ctx.quick else "all 2048 hypergraphs on 4 nodes; all on 5 nodes with at most 3 hyperedges"))
+                                if ctx.quick else "all 2048 hypergraphs on 4 nodes; all on 5 nodes with at most 3 hyperedges") +
+                                ("" if ctx.quick else "; all on 4 nodes with at most 2 hyperedges of size >= 2 x all 16 "
+                                                      "subsets of the singleton hyperedges"))
     ctx.exhaustive_parts.append("compute_directed_motifs order 3: all 4096 directed hypergraphs on 3 nodes x 6 relabellings; "
                                 "orders 3, 4: all on 4 nodes with at most 2 hyperedges x 24 relabellings" +
                                 ("" if ctx.quick else "; all on 4 nodes with 3 hyperedges x 3 generating transpositions"))
